@@ -49,11 +49,23 @@ static void set_prio(size_t k, unsigned p) {
 static unsigned prio_of(size_t k) { return k < g_prio.size() ? g_prio[k] : 0; }
 
 // keys: plain integers, or (DAryHeap only) a heap-owning key whose tag betrays a moved-from / mixed-up element
+// The MOVED-FROM state is visible: a move empties the source (tag cleared, id := MOVED), and the comparator ranks a
+// moved-from key as an extreme priority -- +infinity or -infinity, chosen per case (g_moved_high) -- so that code which
+// looks at an argument after moving it misorders under at least one of the four (order, extreme) combinations.
+static const uint32_t MOVED = 0xFFFFFFFFu;
+static bool g_moved_high = true;
 struct StrKey {
     uint32_t id; std::string tag;
     StrKey() : id(0), tag("k0") {}
     explicit StrKey(uint32_t i) : id(i), tag("k" + std::to_string(i)) {}
-    bool intact() const { return tag == "k" + std::to_string(id); }
+    StrKey(const StrKey&) = default;
+    StrKey& operator=(const StrKey&) = default;
+    StrKey(StrKey&& o) noexcept : id(o.id), tag(std::move(o.tag)) { o.id = MOVED; o.tag.clear(); }
+    StrKey& operator=(StrKey&& o) noexcept {
+        if (this != &o) { id = o.id; tag = std::move(o.tag); o.id = MOVED; o.tag.clear(); }
+        return *this;
+    }
+    bool intact() const { return id != MOVED && tag == "k" + std::to_string(id); }
 };
 static size_t id_of(const StrKey& k) { return k.id; }
 static size_t id_of(uint64_t k) { return static_cast<size_t>(k); }
@@ -61,16 +73,21 @@ template <typename K> static K make_key(long id) { return static_cast<K>(id); }
 template <> StrKey make_key<StrKey>(long id) { return StrKey(static_cast<uint32_t>(id)); }
 static bool intact(const StrKey& k) { return k.intact(); }
 static bool intact(uint64_t) { return true; }
+static bool is_moved(const StrKey& k) { return k.id == MOVED; }
+static bool is_moved(uint64_t) { return false; }
 
 // comparator WITH STATE (pointer to the table, direction flag), handed to the heap's constructor
 struct TabLess {
     const std::vector<unsigned>* prio; bool rev;
     TabLess(const std::vector<unsigned>* p, bool r) : prio(p), rev(r) {}
-    unsigned at(size_t k) const { return k < prio->size() ? (*prio)[k] : 0; }
     template <typename K>
-    bool operator()(const K& a, const K& b) const {
-        return rev ? at(id_of(b)) < at(id_of(a)) : at(id_of(a)) < at(id_of(b));
+    long long at(const K& k) const {
+        if (is_moved(k)) return g_moved_high ? (1LL << 40) : -1;
+        size_t i = id_of(k);
+        return i < prio->size() ? static_cast<long long>((*prio)[i]) : 0;
     }
+    template <typename K>
+    bool operator()(const K& a, const K& b) const { return rev ? at(b) < at(a) : at(a) < at(b); }
 };
 // heaps with the default comparator (std::less, no constructor argument) are built without one
 template <typename H>
@@ -305,7 +322,8 @@ static void addr_dispatch(unsigned d, const std::vector<Op>& ops, size_t nk, std
 }
 
 // <rev>: 0 = min order of the table, 1 = max order, 2 = DEFAULT template arguments (Arity 2, std::less, via the
-// d_ary_heap / d_ary_addressable_int_heap aliases; the generator sets priority = key), 3 (dary only) = heap-owning keys
+// d_ary_heap / d_ary_addressable_int_heap aliases; the generator sets priority = key), 3..6 (dary only) = heap-owning keys
+// whose moved-from state ranks as an extreme priority (see StrKey)
 int main(int argc, char** argv) {
     if (argc < 2) return 2;
     std::ifstream in(argv[1]);
@@ -318,11 +336,12 @@ int main(int argc, char** argv) {
         g_prio.clear();
         if (kind == "dary") {
 #if C13_PART != 2
-            unsigned d; int rv; ls >> d >> rv; g_rev = rv == 1;
+            // rv 3..6: heap-owning keys; 3 = min order, moved-from ranks +inf; 4 = min order, -inf; 5 = max order, +inf; 6 = max, -inf
+            unsigned d; int rv; ls >> d >> rv; g_rev = rv == 1 || rv == 5 || rv == 6; g_moved_high = rv == 3 || rv == 5;
             auto ops = parse_ops(ls);
             if (rv == 2) run_dary<tlx::d_ary_heap<uint32_t>, uint32_t>(ops, out);
-            else if (rv == 3 && d == 2) run_dary<tlx::DAryHeap<StrKey, 2, TabLess>, StrKey>(ops, out);
-            else if (rv == 3) run_dary<tlx::DAryHeap<StrKey, 3, TabLess>, StrKey>(ops, out);
+            else if (rv >= 3 && d == 2) run_dary<tlx::DAryHeap<StrKey, 2, TabLess>, StrKey>(ops, out);
+            else if (rv >= 3) run_dary<tlx::DAryHeap<StrKey, 3, TabLess>, StrKey>(ops, out);
             else switch (d) {
             case 1: run_dary<tlx::DAryHeap<uint32_t, 1, TabLess>, uint32_t>(ops, out); break;
             case 2: run_dary<tlx::DAryHeap<uint32_t, 2, TabLess>, uint32_t>(ops, out); break;
